@@ -7,6 +7,8 @@ import Mathlib.Algebra.BigOperators.Fin
 import Mathlib.Algebra.Field.Defs
 import Mathlib.Tactic.Ring
 
+set_option linter.unusedSectionVars false
+
 section
 variable {R : Type} [Field R]
 
